@@ -188,9 +188,25 @@ class Tables:
             self.saved.append((cls, "_known", cls.__dict__["_known"]))
             setattr(cls, "_known", m)
             self.models[f"{cls.__name__}._known"] = m
+        # data the classes keep besides their tables (a remembered last construction, ...) must not
+        # carry symbolic values from one path into the next: put back before every path
+        classes = (measured.Dimension, measured.Prefix, measured.Unit)
+        snaps = [(cls, symnum.class_scratch(cls)) for cls in classes]
+
+        def hook() -> None:
+            for cls, snap in snaps:
+                symnum.restore_class_scratch(cls, snap)
+
+        self._hook = hook
+        symnum.PATH_START_HOOKS.append(hook)
         return self
 
     def __exit__(self, *exc: Any) -> None:
+        hook = getattr(self, "_hook", None)
+        if hook is not None:
+            hook()
+            if hook in symnum.PATH_START_HOOKS:
+                symnum.PATH_START_HOOKS.remove(hook)
         for cls, name, old in reversed(self.saved):
             setattr(cls, name, old)
         self.saved = []
